@@ -264,8 +264,29 @@ func runHk(in HkIn) Obs {
 			o.Note = "UpdateSnapshots changed the number of contexts"
 			return o
 		}
+		// what the hook reads: the v1 binding context file (hook.go Run: ConvertBindingContextList + Json)
+		var seen []map[string]any
+		if data, err := bctx.ConvertBindingContextList("v1", res).Json(); err != nil || json.Unmarshal(data, &seen) != nil || len(seen) != len(res) {
+			o.Note = "binding context file not readable"
+			return o
+		}
 		ro := []UpdCtxObs{}
-		for _, bc := range res {
+		for ci, bc := range res {
+			fileKeys := []string{}
+			if m, ok := seen[ci]["snapshots"].(map[string]any); ok {
+				for k := range m {
+					fileKeys = append(fileKeys, k)
+				}
+			}
+			sort.Strings(fileKeys)
+			structKeys := []string{}
+			for k := range bc.Snapshots {
+				structKeys = append(structKeys, k)
+			}
+			sort.Strings(structKeys)
+			if strings.Join(fileKeys, ",") != strings.Join(structKeys, ",") {
+				o.Note = fmt.Sprintf("execution %d context %d: the binding context file has snapshots keys %v, the binding context %v", len(o.Hk)+1, ci+1, fileKeys, structKeys)
+			}
 			co := UpdCtxObs{Keys: []int{}, Vals: []int{}}
 			var keys []string
 			for k := range bc.Snapshots {
@@ -310,7 +331,9 @@ func renderHk(in HkIn, o Obs, bad string, c *core.Case) {
 		return fmt.Sprintf("mkHB %s %d %s %d", coqBType(b.Type), b.Name, core.CoqList(b.Includes, core.CoqN), b.Group)
 	})
 	rs := core.CoqList(in.Rounds, func(r []HkCtx) string {
-		return core.CoqList(r, func(x HkCtx) string { return fmt.Sprintf("(%s, %d, %s)", coqBType(x.Type), x.Name, core.CoqBool(x.Sync)) })
+		return core.CoqList(r, func(x HkCtx) string {
+			return fmt.Sprintf("(%s, %d, %s)", coqBType(x.Type), x.Name, core.CoqBool(x.Sync))
+		})
 	})
 	os := core.CoqList(o.Hk, func(r []UpdCtxObs) string {
 		return core.CoqList(r, func(x UpdCtxObs) string {
@@ -465,11 +488,21 @@ func genHk(r *core.Rng) HkIn {
 		in.Bindings[i], in.Bindings[j] = in.Bindings[j], in.Bindings[i]
 	}
 	nr := 1 + r.Intn(4)
+	var last *HkCtx
 	for i := 0; i < nr; i++ {
 		var round []HkCtx
 		for j, n := 0, 1+r.Intn(3); j < n; j++ {
 			b := in.Bindings[r.Intn(len(in.Bindings))]
-			// prefer a binding that shares its name with the previous context's binding
+			// half of the time a binding of another type that shares the name of the binding executed last
+			if last != nil && r.Chance(50) {
+				for _, x := range in.Bindings {
+					if x.Name == last.Name && x.Type != last.Type {
+						b = x
+						break
+					}
+				}
+			}
+			last = &HkCtx{Type: b.Type, Name: b.Name}
 			round = append(round, HkCtx{Type: b.Type, Name: b.Name, Sync: b.Type == HkKube && r.Chance(50)})
 		}
 		in.Rounds = append(in.Rounds, round)
